@@ -234,6 +234,29 @@ func Yield() { time.Sleep(2 * time.Millisecond) }
 // returns. Natively the harness builds a real HTTP request instead.
 func SetCarrier(name, token string) {}
 
+// CorruptBytes returns a single-field corruption of valid: mode 0 = two junk bytes prepended, 1 = first byte
+// dropped, 2 = last byte flipped. (Engine: fresh opaque bytes constrained accordingly.)
+func CorruptBytes(valid []byte, mode int) []byte {
+	switch mode {
+	case 0:
+		return append([]byte{0xde, 0xad}, valid...)
+	case 1:
+		if len(valid) == 0 {
+			return []byte{1}
+		}
+		return append([]byte{}, valid[1:]...)
+	}
+	out := append([]byte{}, valid...)
+	if len(out) == 0 {
+		return []byte{1}
+	}
+	out[len(out)-1] ^= 0x01
+	return out
+}
+
+// Sleep lets time pass: natively a real sleep, under the engine the clock advances by at least d.
+func Sleep(d time.Duration) { time.Sleep(d) }
+
 // ConcreteClock makes the engine's clock concrete: every time.Now() advances by step nanoseconds
 // (0 = back to an arbitrary non-decreasing clock). Natively the real clock is used.
 func ConcreteClock(step int64) {}
